@@ -372,7 +372,41 @@ func TestVerif_C40(t *testing.T) {
 			}
 		}
 	})
+	// Constructed tag tokens: clean lower-case tag and attribute names, attribute values drawn
+	// from the hostile string generator (CR, CRLF, NUL, quotes, ampersands, markup look-alikes).
+	// Every such value is one the tokenizer can itself produce (through character references),
+	// so the statement's "for every tag token" covers it; unlike the tokens above these do not
+	// depend on the tokenizer under test having produced the value correctly in the first place.
+	r.CasesParallel("token-string-constructed", r.N(20000, 600000), 0, func(c *verifrt.Case) {
+		rng := c.Rng
+		tok := Token{Type: []TokenType{StartTagToken, StartTagToken, SelfClosingTagToken, EndTagToken}[rng.IntN(4)]}
+		tok.Data = []string{"a", "div", "span", "p", "b", "ul", "li", "section", "x-y", "h1", "custom-el"}[rng.IntN(11)]
+		tok.DataAtom = atom.Lookup([]byte(tok.Data))
+		if tok.Type != EndTagToken {
+			for len(tok.Attr) == 0 {
+				tok.Attr = verifC40Attrs(rng)
+			}
+		}
+		for i := range tok.Attr {
+			// a NUL never survives tokenization (raw NUL and &#0; both become U+FFFD), so no
+			// token "the tokenizer saw" holds one
+			tok.Attr[i].Val = strings.ReplaceAll(tok.Attr[i].Val, "\x00", "\uFFFD")
+		}
+		c.Describe(map[string]any{"token": fmt.Sprintf("%#v", tok)})
+		checkToken(c, tok, nil)
+		nt := false
+		for _, a := range tok.Attr {
+			nt = nt || needsEsc(a.Val)
+			if strings.Contains(a.Val, "\r") {
+				r.Event("constructed_attr_values_with_cr", 1)
+			}
+		}
+		r.Eval(nt, "tokc", tok.Type, tok.Data, tok.Attr)
+		r.Event("tokens_constructed", 1)
+	})
 	// a few tokens that only hand-written input reaches reliably
+	r.Require("tokens_constructed", 10000)
+	r.Require("constructed_attr_values_with_cr", 300)
 	r.Cases("token-string-fixed", 1, func(c *verifrt.Case) {
 		for _, in := range []string{"<!DOCTYPE html>", "<!doctype  html  >", "<!DOCTYPE>", "<!DOCTYPE a&gt;b>", "<!DOCTYPE &#32;x>", "<!DOCTYPE &#10;x>", "<!DOCTYPE x&#13;>", "<!DOCTYPE \x00>",
 			"<!---->", "<!--->-->", "<!---->>", "<!-- - -- --! -->", "<!--x--!>", "<!--&gt;-->", "<!----!&gt;-->", "<!--x--!&gt;y-->", "<!---&gt;-->", "<!--!&gt;-->", "<!--x--&gt;y-->", "<!--&-->", "<!--\r-->", "<!--\x00-->", "<!-->", "<?php ?>", "</ x>", "</>",
